@@ -380,6 +380,9 @@ fn gen(rng: &mut Rng, i: u64) -> String {
 			0 => 0, 1 => 1, 2 => 2, 3 => n as u64, 4 => n as u64 + 1, 5 => (n as u64).saturating_sub(1), 6 => K63, 7 => u64::MAX,
 			8 => 1 << 32, 9 => K63 - 1, 10 => u64::MAX / 2 + 2, _ => rng.below(n as u64 + 3),
 		};
+		// fourth audit (M3): most of the k above overshoot and exhaust the iterator at once; two thirds of the nth / nth_back
+		// calls now skip a few items only, so that several productive calls follow one another
+		let k = if rng.chance(2, 3) { rng.below((n as u64 / 3).max(1) + 1) } else { k };
 		let op = match rng.below(if full { 20 } else { 12 }) {
 			0 | 1 | 2 => "n".to_string(),
 			3 | 4 | 5 => format!("t{}", k),
